@@ -133,3 +133,52 @@ def const_int(t):
             except ValueError:
                 return None
     return None
+
+
+def self_writes(body, local=1):
+    """Sites writing (assign / call destination / &mut borrow) through parameter `local`
+    (usually `self`). Returns [(site, first field name)]."""
+    out = []
+
+    def first_field(pl):
+        if pl['l'] != local:
+            return None
+        for p in pl['p']:
+            if isinstance(p, dict) and 'f' in p:
+                return p['f']
+        return None
+    for s in body.assigns(lambda pl: first_field(pl) is not None):
+        pl = s.data['place'] if s.kind == 'assign' else s.data['dest']
+        out.append((s, first_field(pl)))
+    for j, b in enumerate(body.blocks):
+        if b['cleanup']:
+            continue
+        for i, st in enumerate(b['stmts']):
+            if st['k'] == 'assign' and st['rv']['k'] == 'ref' and st['rv']['bk'] == 'mut':
+                ff = first_field(st['rv']['place'])
+                if ff is not None:
+                    from .core import Site
+                    out.append((Site(body, j, i, 'mutborrow', st), ff))
+    return out
+
+
+def ret_assigns(body):
+    """[(site, expanded string of the value)] for every assignment to the return place."""
+    out = []
+    for s in body.assigns(lambda pl: pl['l'] == 0 and not pl['p']):
+        if s.kind == 'assign':
+            out.append((s, S(body.rvalue_term(s.data['rv']))))
+        else:
+            out.append((s, S(body.call_term(s.data))))
+    return out
+
+
+def blocks_must_pass_block(body, target_bb, via_blocks):
+    """True iff every path entry -> target_bb passes through one of via_blocks."""
+    via = set(via_blocks)
+    if target_bb in via:
+        return True
+    seen = body.reachable_avoiding(None, blocked_block=lambda x: x in via)
+    if 0 in via:
+        return True
+    return target_bb not in seen
